@@ -24,6 +24,20 @@ CHECKS = {
         design='§5 C14'),
 }
 
+CHECKS['C15'] = dict(
+    level='proof',
+    text=('Theorems about DayCount.year_frac as GENERATED from day_count.py (exact rationals, all dates): each of '
+          '30/360 Bond, 30E/360, 30E/360 ISDA (with its termination-date exception), 30E+/360, ACT/365F, ACT/360, '
+          'SIMPLE, ACT/ACT ICMA and same-year ACT/ACT ISDA equals its ISDA 2006 / ICMA formula; zero on equal dates '
+          '(with the two corners where the published rule itself is non-zero proved as such), sign and additivity for '
+          'ACT/fixed, ICMA regular period = 1/frequency, and error_kind: no failure other than FinError is reachable '
+          '(ZeroDivision only for a zero-length ICMA period). Multi-year ACT/ACT ISDA and ACT/365L against the spec '
+          'are validated by the correspondence (implementation = generated model = source-independent spec, numerator '
+          'and denominator exact) on >=6e4 date pairs per quick run.'),
+    note=BASE_NOTE + 'Spec formulas are a transcription of ISDA 2006 4.16 / ICMA 251; multi-year ACT/ACT ISDA = per-year sum is validated, not yet a theorem.',
+    technique='Lean 4 theorems on a model regenerated from the source (py2lean) + model/implementation/spec correspondence with exact rationals',
+    design='§5 C15')
+
 NOT_YET = {}
 
 
